@@ -2087,7 +2087,8 @@ def attribute(interp, base, name, st, node):
                     tot = tot.mul(d)
                 if tot.known():
                     return A.int_of_dim(tot, x.labels)
-            return V("int", T("size", x.term), shape=(), labels=x.labels)
+            # the number of entries of a vector is its length
+            return V("int", T("len" if (sh is not None and len(sh) == 1) else "size", x.term), shape=(), labels=x.labels)
         if name == "real":
             return x
         if name == "dtype":
